@@ -6,12 +6,17 @@ CONSTANTS
   NegAttempts = 3
   MaxLoss = 2
   MaxNegLoss = 3
-  MaxRestarts = 1
+  MaxRestarts = 2
   PeerModes <- ModesAll
   DenyReplies <- DenyOne
   AckTails <- TailsRssi
-  Bug = "nr_only_on_success"
+  Bug = "none"
 INVARIANT PropertyHolds
+INVARIANT StepFormHolds
 INVARIANT CompleteAtRest
+INVARIANT SafelinkIffEcho
+INVARIANT NeedsResendingIsNotSafelink
+INVARIANT Lockstep
+INVARIANT TypeOK
 CONSTRAINT InQBound
 CHECK_DEADLOCK FALSE
